@@ -1201,6 +1201,11 @@ func (a *nilAn) lookupOkGuard(lk *ssa.Lookup, b *ssa.BasicBlock) bool {
 }
 
 func (a *nilAn) mapValuesNonNil(m ssa.Value) bool {
+	if ld, ok := m.(*ssa.UnOp); ok && ld.Op == token.MUL {
+		if g, ok := ld.X.(*ssa.Global); ok {
+			return a.globalMapValuesNonNil(g)
+		}
+	}
 	mk, ok := m.(*ssa.MakeMap)
 	if !ok {
 		return false
@@ -1213,6 +1218,68 @@ func (a *nilAn) mapValuesNonNil(m ssa.Value) bool {
 		}
 	}
 	return true
+}
+
+// globalMapValuesNonNil: a package-level map that is built once by the package initialiser from a
+// literal whose values are all non-nil functions, and is never written or handed out afterwards.
+func (a *nilAn) globalMapValuesNonNil(g *ssa.Global) bool {
+	inits := 0
+	for fn := range a.p.AllFns {
+		if !a.p.IsRepoFn(fn) || fn.Blocks == nil {
+			continue
+		}
+		for _, b := range fn.Blocks {
+			for _, ins := range b.Instrs {
+				uses := false
+				for _, op := range ins.Operands(nil) {
+					if *op == ssa.Value(g) {
+						uses = true
+					}
+				}
+				if !uses {
+					continue
+				}
+				switch x := ins.(type) {
+				case *ssa.Store:
+					if x.Addr != ssa.Value(g) || fn.Name() != "init" || fn.Synthetic == "" {
+						return false
+					}
+					mk, ok := x.Val.(*ssa.MakeMap)
+					if !ok {
+						return false
+					}
+					for _, ref := range *mk.Referrers() {
+						switch y := ref.(type) {
+						case *ssa.MapUpdate:
+							if !a.funcNonNil(y.Value, y.Block()) {
+								return false
+							}
+						case *ssa.Store:
+						default:
+							return false
+						}
+					}
+					inits++
+				case *ssa.UnOp:
+					// a load: the loaded map may only be looked up, ranged over or measured
+					for _, ref := range *x.Referrers() {
+						switch y := ref.(type) {
+						case *ssa.Lookup, *ssa.Range, *ssa.DebugRef:
+						case *ssa.Call:
+							if bi, ok := y.Call.Value.(*ssa.Builtin); !ok || bi.Name() != "len" {
+								return false
+							}
+						default:
+							return false
+						}
+					}
+				default:
+					return false
+				}
+			}
+		}
+	}
+	return inits == 1
 }
 
 func init() {
